@@ -259,6 +259,9 @@ func (e *Engine) eval(env *Env, x Expr) (TV, error) {
 	case *ECall:
 		return e.evalCall(env, n)
 	case *EQuant:
+		if len(n.Pats) > 0 && s.quant == 0 {
+			e.freezeHeapsForPatterns(env)
+		}
 		s.quant++
 		defer func() { s.quant-- }()
 		ce := env.child()
@@ -273,7 +276,11 @@ func (e *Engine) eval(env *Env, x Expr) (TV, error) {
 			name := fmt.Sprintf("q_%s_d%d", qv.Name, s.quant)
 			decls = append(decls, fmt.Sprintf("(%s %s)", name, sort))
 			t := Term{name, sort}
-			ce.vars[qv.Name] = s.fromTerm(t, ty)
+			if ty != nil {
+				ce.vars[qv.Name] = s.fromTerm(t, ty)
+			} else {
+				ce.vars[qv.Name] = t // spec-level sort (Int / mathint / array): no Go type, no range guard
+			}
 			ce.vtypes[qv.Name] = ty
 			if ty != nil {
 				if f := e.tm.TypeFacts(t, ty); f.S != "true" {
@@ -291,6 +298,26 @@ func (e *Engine) eval(env *Env, x Expr) (TV, error) {
 			body = Implies(And(guards...), body)
 		} else {
 			body = And(append(guards, body)...)
+		}
+		if len(n.Pats) > 0 {
+			// explicit instantiation patterns
+			var ps []string
+			for _, group := range n.Pats {
+				var ts []string
+				for _, pe := range group {
+					pt, err := e.evalTerm(ce, pe)
+					if err != nil {
+						return TV{}, fmt.Errorf("quantifier pattern: %v", err)
+					}
+					ts = append(ts, pt.S)
+				}
+				ps = append(ps, ":pattern ("+strings.Join(ts, " ")+")")
+				// z3 matches (+ a q) syntactically and may have normalised the ground term to (+ q a): offer both
+				if sw := swapPlusInPatterns(ts); sw != nil {
+					ps = append(ps, ":pattern ("+strings.Join(sw, " ")+")")
+				}
+			}
+			return TV{Term{fmt.Sprintf("(%s (%s) (! %s %s))", q, strings.Join(decls, " "), body.S, strings.Join(ps, " ")), SBool}, types.Typ[types.Bool]}, nil
 		}
 		return TV{Term{fmt.Sprintf("(%s (%s) %s)", q, strings.Join(decls, " "), body.S), SBool}, types.Typ[types.Bool]}, nil
 	case *ELet:
@@ -1201,6 +1228,12 @@ func (e *Engine) evalCall(env *Env, n *ECall) (TV, error) {
 		return tv, err
 	}
 	if tv, handled, err := e.addonSpec(env, n.Fun, n.Args); handled {
+		return tv, err
+	}
+	if tv, handled, err := e.arraySpec(env, n.Fun, n.Args); handled {
+		return tv, err
+	}
+	if tv, handled, err := e.bufSpec(env, n.Fun, n.Args); handled {
 		return tv, err
 	}
 	if n.Fun == "as" && len(n.Args) == 2 {
